@@ -90,6 +90,10 @@ func (H) Gen(prop string, rng *rand.Rand, tier string) *core.Plan {
 		p.Ops = append(p.Ops, core.Op{K: "end", S: []string{"sync", "flush", "reopen", "reopen", "crash", "crash"}[rng.Intn(6)]})
 	}
 	p.Cfg["maporder"] = rng.Intn(2) // tape-chosen iteration order of Go maps in the code under test
+	if rng.Intn(4) == 0 {
+		p.Cfg["ioerr_pm"] = []int{30, 100, 300}[rng.Intn(3)]
+		p.Cfg["ioerr_max"] = 1 + rng.Intn(2)
+	}
 	return p
 }
 
@@ -129,6 +133,24 @@ type node struct {
 	flushedMeta     map[string]bool
 	maybeLostSeries map[string]bool
 	postOwner       map[string]string // shard|metric|seriesID -> series, kept while the postings may contain the ID
+	ioTasks         map[int]bool      // tasks running a flush operation in which an I/O error may be injected
+	ioLeft          int
+	ioFailed        map[int]bool // tasks whose file-system operation was failed
+}
+
+// flushErr judges the error of a flush: one that an injected I/O error explains is the system working as
+// intended, anything else is harness trouble.
+func (n *node) flushErr(what string, err error) {
+	if err == nil {
+		return
+	}
+	if t := n.c.Sim.CurTask(); n.ioFailed[t] {
+		delete(n.ioFailed, t)
+		n.c.Sim.Probe("flush-failed-by-io-error")
+		n.c.Sim.Event("%s failed: %v", what, err)
+		return
+	}
+	n.c.Anomaly("%s: %v", what, err)
 }
 
 // record checks a returned ID against the ledger: same name -> same ID, different names -> different IDs.
@@ -484,7 +506,7 @@ func (n *node) forgetTagKey(kid uint32) {
 
 func (H) Run(c *core.RunCtx) {
 	sim := c.Sim
-	n := &node{c: c, dir: c.Dir, l: newLedger(), crashP: float64(c.Plan.C("crash_pm", 8)) / 1000, flushedMeta: map[string]bool{}, postOwner: map[string]string{}}
+	n := &node{c: c, dir: c.Dir, l: newLedger(), crashP: float64(c.Plan.C("crash_pm", 8)) / 1000, flushedMeta: map[string]bool{}, postOwner: map[string]string{}, ioFailed: map[int]bool{}, ioTasks: map[int]bool{}}
 	pre := func(op, path string) {
 		if !n.armed || n.dead || sim.CurInc() != n.inc {
 			return
@@ -499,10 +521,29 @@ func (H) Run(c *core.RunCtx) {
 	kv.VerifSetFS(pre)
 	version.VerifSetFS(pre)
 	table.VerifSetFS(pre)
+	if pm := c.Plan.C("ioerr_pm", 0); pm > 0 {
+		// a table write of a metadata / index flush fails with an I/O error (disk full): the flush reports it,
+		// what it was about to persist stays in memory and the next flush has to persist it
+		n.ioLeft = c.Plan.C("ioerr_max", 1)
+		table.VerifSetFSFail(func(op, path string) error {
+			if !n.ioTasks[sim.CurTask()] || n.ioLeft == 0 || n.dead || sim.CurInc() != n.inc || !(op == "write" || op == "sync" || op == "flush") {
+				return nil
+			}
+			if !sim.Tape.Chance(float64(pm) / 1000) {
+				return nil
+			}
+			n.ioLeft--
+			n.ioFailed[sim.CurTask()] = true
+			sim.Fault("io-error@" + op)
+			sim.Event("injected I/O error at %s %s", op, strings.TrimPrefix(path, c.Dir))
+			return fmt.Errorf("%s: injected: no space left on device", op)
+		})
+	}
 	defer func() {
 		kv.VerifSetFS(nil)
 		version.VerifSetFS(nil)
 		table.VerifSetFS(nil)
+		table.VerifSetFSFail(nil)
 		sim.OnYield = nil
 	}()
 	sim.OnYield = func(label string) {
@@ -687,8 +728,11 @@ func (H) Run(c *core.RunCtx) {
 						flushing++
 						sim.SpawnIn(n.inc, "flushmeta", func() {
 							defer func() { metaFlushing-- }()
-							if err := n.meta.Flush(); err != nil {
-								c.Anomaly("meta flush: %v", err)
+							n.ioTasks[sim.CurTask()] = true
+							err := n.meta.Flush()
+							delete(n.ioTasks, sim.CurTask())
+							if err != nil {
+								n.flushErr("meta flush", err)
 							} else {
 								for _, k := range snapshot {
 									n.flushedMeta[k] = true
@@ -711,9 +755,10 @@ func (H) Run(c *core.RunCtx) {
 						idb.PrepareFlush()
 						flushing++
 						sim.SpawnIn(n.inc, "flushindex", func() {
-							if err := idb.Flush(); err != nil {
-								c.Anomaly("index flush: %v", err)
-							}
+							n.ioTasks[sim.CurTask()] = true
+							err := idb.Flush()
+							delete(n.ioTasks, sim.CurTask())
+							n.flushErr("index flush", err)
 							idxFlushing[shard]--
 							flushing--
 						})
